@@ -38,7 +38,10 @@ OP7 == [kfs |-> <<Kf(0, N_, <<6>>, <<2>>, N_, 0)>>, de |-> 1, tm |-> Tm(4, 3, 3,
 OP8 == [kfs |-> <<Kf(4, <<7>>, N_, N_, N_, 0)>>, de |-> 1, tm |-> Tm(2, 0, -3, FALSE)]
 \* two properties with DIFFERENT custom easings over the same segment (evaluated back to back at the same x)
 OP9 == [kfs |-> <<Kf(0, <<4>>, N_, N_, N_, 2), Kf(0, N_, <<6>>, N_, N_, 3), Kf(0, N_, N_, <<1>>, N_, 4), Kf(4, <<44>>, <<66>>, <<81>>, N_, 0)>>, de |-> 1, tm |-> Tm(8, 0, 1, FALSE)]
-ObjPool == << <<OP1>>, <<OP3>>, <<OP1, OP2>>, <<OP2, OP3>>, <<OP4, OP5, OP6>>, <<>>, <<OP5>>, <<OP6, OP1>>, <<OP7, OP3, OP4>>, <<OP2, OP7>>, <<OP9>>, <<OP9, OP2>> >>
+\* a step: two keyframes of one property at the same position (there the properties allow either value, but the
+\* same object must keep giving the same one whatever was evaluated before)
+OP10 == [kfs |-> <<Kf(0, <<8>>, N_, <<1>>, N_, 0), Kf(2, <<20>>, N_, <<5>>, N_, 0), Kf(2, <<50>>, N_, N_, N_, 0), Kf(4, <<80>>, N_, <<9>>, N_, 0)>>, de |-> 1, tm |-> Tm(4, 1, 1, FALSE)]
+ObjPool == << <<OP1>>, <<OP3>>, <<OP1, OP2>>, <<OP2, OP3>>, <<OP4, OP5, OP6>>, <<>>, <<OP5>>, <<OP6, OP1>>, <<OP7, OP3, OP4>>, <<OP2, OP7>>, <<OP9>>, <<OP9, OP2>>, <<OP10>> >>
 ValPool == << <<70, 71, 72, 73>>, <<-5, 0, 100, 1>>, <<8, 20, 9, 3>> >>
 
 I0(n) == <<"i", n>>
